@@ -142,7 +142,26 @@ def nlp_diff(p):
     return dict(status="not-reproduced", detail="real rockit NLP equals the oracle at 3 random points (%d rows)" % n_em, **out)
 
 
-HARNESS = dict(nlp_diff=nlp_diff)
+def nlp_diff_any(p):
+    """a refuted UNBOUNDED obligation: look for a concrete failing instance among the bounded families"""
+    from contracts import catalog
+    tried = []
+    for prop, fam_filter in p["families"]:
+        for label, fac in catalog.FAMILIES[prop]("thorough"):
+            if fam_filter and not any(f in label for f in fam_filter):
+                continue
+            q = dict(p, prop=prop, label=label, harness="nlp_diff")
+            r = nlp_diff(q)
+            tried.append(label)
+            if r.get("status") == "confirmed":
+                r["searched"] = tried
+                return r
+            if len(tried) >= p.get("max_instances", 40):
+                break
+    return dict(status="no-instance-found", detail="none of %d bounded instances reproduces the refuted obligation natively" % len(tried), searched=tried)
+
+
+HARNESS = dict(nlp_diff=nlp_diff, nlp_diff_any=nlp_diff_any)
 
 
 def main():
